@@ -421,6 +421,47 @@ func runC06(x *X) {
 		x.Nontrivial(contexts[ctx] + "\x00" + s)
 		c06Check(x, c, in, []string{"context:" + contexts[ctx]})
 	})
+	// rows that were afterwards ALSO attached to a second table, at other positions: the generator must still
+	// be told the row's position in the table being rendered
+	x.Explore("rows-also-in-another-table", ExploreOpts{ShardDepth: 1, Bound: "4 shapes; after building, every row object is additionally attached to a second table in reverse order behind two extra rows"}, func(c *Chooser) {
+		shapes := []*Grid{
+			{HasHeader: true, Header: []string{"h1", "h2"}, Rows: []GridRow{{Cells: []string{"a", "b"}}, {Sep: true}, {Cells: []string{"c"}}, {Cells: []string{"d", "e"}}}},
+			{Rows: []GridRow{{Cells: []string{"a"}}, {Cells: []string{"b"}}}},
+			{HasHeader: true, Header: []string{"h"}, Rows: []GridRow{{Sep: true}, {Cells: []string{"a"}}, {Sep: true}}},
+			{HasHeader: true, Header: []string{"h"}, Rows: []GridRow{{Cells: []string{"only"}}}},
+		}
+		g := shapes[c.Choose(len(shapes))]
+		t := thtml.New()
+		g.Build(t)
+		other := thtml.New()
+		other.AddRowItems("x")
+		other.AddRowItems("y")
+		rr := t.AllRows()
+		for i := len(rr) - 1; i >= 0; i-- {
+			if !rr[i].IsSeparator() {
+				other.AddRow(rr[i])
+			}
+		}
+		c.Logf("html table %s; then every row object also added to a second table (reverse order, after 2 other rows)", g)
+		var calls []int
+		t.SetRowClassGenerator(func(n int, ctx interface{}) template.HTMLAttr {
+			calls = append(calls, n)
+			return template.HTMLAttr(fmt.Sprintf("r%d", n))
+		}, nil)
+		var out string
+		var err error
+		if p, val, site := Safe(func() { out, err = t.Render() }); p {
+			x.FailSite("C06.no_panic", []string{"panic", "rows_shared_with_another_table"}, site, "html Render panicked: %v", val)
+			return
+		}
+		x.Transition(1)
+		x.Nontrivial(g.ShapeKey())
+		if err != nil {
+			x.Fail("C06.succeeds", []string{"rows_shared_with_another_table"}, "html Render failed: %v", err)
+			return
+		}
+		c06Validate(x, &c06Input{g: g, gen: true}, g, []string{"rows_shared_with_another_table"}, out, calls, 0)
+	})
 	wide := WideGrids()
 	x.Explore("wide", ExploreOpts{ShardDepth: 2, Bound: "4 tables of 10-13 columns x generator on/off x a hostile text in each column position in turn"}, func(c *Chooser) {
 		g0 := wide[c.Choose(len(wide))]
